@@ -180,14 +180,22 @@ def unit_copy(ndim, which):
             real_side = bool(r2c) and (bool(fwd) == (which == "in"))       # the user array holds real data
             padded = real_side and bool(inplace)
             buf = "plan_in" if (which == "in" or inplace) else "plan_out"
-            wr = [e for e in s.events if e.kind == "w"]
-            rd = [e for e in s.events if e.kind == "r" and e.arr.name in ("user", buf)]
+            # a copy of C99 complex elements is summarised as two parallel copies (real / imaginary companion arrays, same element index): the real
+            # part stands for the element, the imaginary part is required to mirror it
+            nm = lambda e: getattr(e.arr, "cx_parent", e.arr).name
+            im_w = [e for e in s.events if e.kind == "w" and getattr(e.arr, "cx_part", None) == "im"]
+            re_w = [e for e in s.events if e.kind == "w" and getattr(e.arr, "cx_part", None) == "re"]
+            if im_w or re_w:
+                ctx.holds("%s complex elements are copied whole (real and imaginary part at the same element index)" % tag,
+                          len(im_w) == len(re_w) and all(a.idx is b.idx and a.op == b.op and len(a.guards) == len(b.guards) for a, b in zip(re_w, im_w)), "", fq)
+            wr = [e for e in s.events if e.kind == "w" and getattr(e.arr, "cx_part", "re") == "re"]
+            rd = [e for e in s.events if e.kind == "r" and nm(e) in ("user", buf) and getattr(e.arr, "cx_part", "re") == "re"]
             ctx.holds("%s one copy loop" % tag, len(wr) == 1 and wr[0].op == "=", "%d writes" % len(wr), fq)
             if len(wr) != 1:
                 continue
             w = wr[0]
-            src = [e for e in rd if e.arr.name == ("user" if which == "in" else buf)]
-            ctx.holds("%s copies between the user array and the plan buffer" % tag, w.arr.name == (buf if which == "in" else "user") and len(src) >= 1, "%s <- %s" % (w.arr.name, [e.arr.name for e in rd]), fq)
+            src = [e for e in rd if nm(e) == ("user" if which == "in" else buf)]
+            ctx.holds("%s copies between the user array and the plan buffer" % tag, nm(w) == (buf if which == "in" else "user") and len(src) >= 1, "%s <- %s" % (nm(w), [nm(e) for e in rd]), fq)
             if not src:
                 continue
             r = src[0]
